@@ -1232,6 +1232,15 @@ func paGrantClause(before, after paObs, t paTx, now int64) []string {
 		return nil
 	}
 	c := t.Calls[0]
+	if c.M == "createval" {
+		// createValidator stakes the named account's coins; no authorization covers MsgCreateValidator, so a caller
+		// that is not the signer can never have "a live grant covering the message type": any effect is a violation
+		if w := c.Who; w < paNAct && (paCmp(after.Bal[w][0], before.Bal[w][0]) < 0) {
+			return []string{fmt.Sprintf("createValidator by %s (not the signer) staked %s's coins (balance %s -> %s): no grant covers it",
+				paActorName[caller], paActorName[w], before.Bal[w][0], after.Bal[w][0])}
+		}
+		return nil
+	}
 	kind, ok := paSpend[c.M]
 	if !ok {
 		return nil
@@ -1364,7 +1373,7 @@ func paCallFrames(t paTx, root *frameEv) []*frameEv {
 
 func paIdentityErr(s string) bool {
 	return strings.Contains(s, "is not the same as delegator address") || strings.Contains(s, "does not match the delegator address") ||
-		strings.Contains(s, "is not the same as sender address")
+		strings.Contains(s, "is not the same as sender address") || strings.Contains(s, "is not the origin address")
 }
 
 var paCoqMethod = map[string]string{"delegate": "SDelegate", "undelegate": "SUndelegate", "redelegate": "SRedelegate", "cancel": "SCancelUnbonding",
